@@ -3,6 +3,7 @@ import copy
 import random
 
 from .. import absfont, dsbuild, gen, snapshot
+from ..absfont import PS
 
 PROPERTY = "C19"
 TRACE_MODULE = "InstTrace"
@@ -123,6 +124,28 @@ def cases(tier, seed):
         locs = sorted(rng.sample(range(0, 9), rng.randint(2, 4)))
         out.append({"cid": f"c19-{seed}-{k}", "lib": rng.choice(["ufoLib2", "defcon"]), "fam": fam, "inst_locs": locs,
                     "round": rng.random() < 0.5})
+    # two axes declared in an order that is NOT alphabetical ("Weight", then "Optical"), with two off-axis masters in the same
+    # quadrant, each inside the other's box: the regions the variation model gives them depend on the axis order
+    rng3 = random.Random(seed * 334214459 + 190020)
+    for k in range(8 if tier == "quick" else 100):
+        for _try in range(20):
+            try:
+                base = gen.glyphset(rng3, nmin=3, nmax=5, max_depth=1, anchors=True, unicodes=True)
+                for g in base.values():
+                    g["h"] = 0
+                locs2 = [[0, 0], [8, 0], [0, 8], [2, 5], [5, 2]] + ([[8, 8]] if k % 2 else [])
+                masters = [base] + [gen.perturb_master(rng3, base, change_2x2=0.0) for _ in locs2[1:]]
+                break
+            except RuntimeError:
+                continue
+        names = sorted(base)
+        kern = [list(x) for x in {(rng3.choice(names), rng3.choice(names)) for _k in range(rng3.randint(1, 3))}]
+        kvals = [[rng3.randint(-60, 60) * 4 for _ in kern] for _m in locs2]
+        info = [{"ascender": rng3.randint(700, 900), "xHeight": rng3.randint(400, 600), "capHeight": rng3.randint(600, 800)} for _m in locs2]
+        out.append({"cid": f"c19-{seed}-ax{k}", "two": True, "lib": rng3.choice(["ufoLib2", "defcon"]),
+                    "axes": ["Weight", "Optical"] if k % 4 != 3 else ["Optical", "Weight"],
+                    "fam": {"locs2": locs2, "masters": masters, "kern": kern, "kvals": kvals, "info": info},
+                    "inst_locs": [[4, 4], [3, 3], [5, 4], [2, 5], [8, 0], [6, 1]][: 3 + k % 4], "round": True})
     rng2 = random.Random(seed * 334214459 + 190019)
     for k in range(12 if tier == "quick" else 150):
         out.append({"cid": f"c19-{seed}-nd{k}", "lib": rng2.choice(["ufoLib2", "defcon"]), "fam": _family_nd(rng2),
@@ -186,7 +209,96 @@ def _snap(font):
     return font
 
 
+def _execute_two(case):
+    """two-axis families: instances against the variation model evaluated by the harness on the raw master values"""
+    import math
+
+    from fontTools.designspaceLib import InstanceDescriptor
+    from fontTools.varLib.models import VariationModel
+
+    from ufo2ft.instantiator import Instantiator
+
+    fam = case["fam"]
+    ax = case["axes"]          # declaration order; locs2 entries are (Weight, Optical)
+    val = lambda loc, name: loc[0] if name == "Weight" else loc[1]  # noqa
+    masters = []
+    for k, gs in enumerate(fam["masters"]):
+        ufo = {"glyphs": gs, "order": sorted(gs), "glyphNames": sorted(gs),
+               "info": dict(unitsPerEm=1000, descender=-200, familyName="Inst2", styleName=f"M{k}", **fam["info"][k]),
+               "kerning": [[l, r, fam["kvals"][k][j]] for j, (l, r) in enumerate(fam["kern"])], "kernScale": 4}
+        masters.append({"loc": {"Weight": fam["locs2"][k][0], "Optical": fam["locs2"][k][1]}, "ufo": ufo, "name": f"M{k}"})
+    family = {"axes": [{"name": n_, "tag": {"Weight": "wght", "Optical": "opsz"}[n_], "min": 0, "default": 0, "max": 8} for n_ in ax],
+              "masters": masters}
+    ds = dsbuild.build_designspace(family, case["lib"])
+    fonts = [s.font for s in ds.sources]
+    before = [snapshot.font_snapshot(f) for f in fonts]
+    masters_abs = [_proj(f) for f in fonts]
+    inst = Instantiator.from_designspace(ds, round_geometry=True)
+    model = VariationModel([{n_: val(l, n_) / 8 for n_ in ax} for l in fam["locs2"]], axisOrder=list(ax))
+    otr = lambda v: int(math.floor(v + 0.5))  # noqa
+    recs = []
+    for loc in case["inst_locs"]:
+        i = InstanceDescriptor()
+        i.location = {"Weight": loc[0], "Optical": loc[1]}
+        i.familyName, i.styleName = "Inst2", f"W{loc[0]}O{loc[1]}"
+        tid = f"{case['cid']}/{loc[0]}-{loc[1]}"
+        try:
+            f = inst.generate_instance(i)
+            _snap(f)                # (2x2 entries are blended, not rounded: remove binary floating-point noise)
+            gs = _proj(f)
+        except Exception as e:  # noqa
+            recs.append({"tid": tid, "err": type(e).__name__ + ": " + str(e)[:160], "loc": -1, "locs": [0], "_sig": [case["cid"], str(loc)]})
+            continue
+        nloc = {n_: val(loc, n_) / 8 for n_ in ax}
+        tie = [False]
+
+        def blend(values):          # values at scale PS -> rounded blend at scale PS
+            v = model.interpolateFromMasters(nloc, [x / PS for x in values])
+            if abs((v % 1) - 0.5) < 1e-6:
+                tie[0] = True
+            return otr(v) * PS
+
+        exp = {}
+        for n_, g0 in masters_abs[0].items():
+            ms = [m[n_] for m in masters_abs]
+            g = copy.deepcopy(g0)
+            for ci, c in enumerate(g["cs"]):
+                for pi, p in enumerate(c):
+                    p[0] = blend([m["cs"][ci][pi][0] for m in ms])
+                    p[1] = blend([m["cs"][ci][pi][1] for m in ms])
+            for ci, c in enumerate(g["comps"]):
+                c["d"] = [blend([m["comps"][ci]["d"][0] for m in ms]), blend([m["comps"][ci]["d"][1] for m in ms])]
+            for ai, a in enumerate(g["anchors"]):
+                a["x"] = blend([m["anchors"][ai]["x"] for m in ms])
+                a["y"] = blend([m["anchors"][ai]["y"] for m in ms])
+            g["w"] = blend([m["w"] for m in ms])
+            exp[n_] = g
+
+        def blend_plain(values, away=False):      # plain numbers -> rounded blend at scale 32
+            v = model.interpolateFromMasters(nloc, list(values))
+            if abs((v % 1) - 0.5) < 1e-6:
+                tie[0] = True
+            r = (-otr(-v) if (away and v < 0) else otr(v))
+            return r * 32
+
+        exp_kern = [[l, r, blend_plain([fam["kvals"][m][j] / 4 for m in range(len(masters))], away=True)] for j, (l, r) in enumerate(fam["kern"])]
+        inst_kern = [[l, r, absfont.to_scaled(f.kerning.get((l, r), 0), 32)] for (l, r) in fam["kern"]]
+        exp_info = {a: blend_plain([fam["info"][m][a] for m in range(len(masters))]) for a in ("ascender", "xHeight", "capHeight")}
+        inst_info = {a: absfont.to_scaled(getattr(f.info, a), 32) for a in ("ascender", "xHeight", "capHeight")}
+        if tie[0]:
+            recs.append({"tid": tid, "skip": True, "why": "a blend within 1e-6 of a rounding tie"})
+            continue
+        on_master = loc in fam["locs2"]
+        recs.append({"tid": tid, "locs": [0], "default": 1, "masters": masters_abs, "loc": -1 if not on_master else 0, "round": True, "inst": gs,
+                     "swaps": [], "kern": [], "instKern": inst_kern, "expKern": exp_kern, "info": [], "instInfo": inst_info, "expInfo": exp_info,
+                     "expected2": exp, "srcSame": before == [snapshot.font_snapshot(x) for x in fonts], "groups": [], "instGroups": [],
+                     "repeatSame": True, "orderSame": True, "swapTwiceSame": True, "_sig": [case["cid"], str(loc)]})
+    return recs
+
+
 def execute(case):
+    if case.get("two"):
+        return _execute_two(case)
     from fontTools.designspaceLib import evaluateRule
 
     from ufo2ft.instantiator import Instantiator, swap_glyph_names
